@@ -198,11 +198,11 @@ class dns(packet_base):
                         len(self.authorities), len(self.additional))
 
         def makeName (labels, term):
-          o = '' #TODO: unicode
+          o = b'' #TODO: unicode
           for l in labels.split('.'):
-            o += chr(len(l))
-            o += l
-          if term: o += '\x00'
+            o += bytes([len(l)])
+            o += l.encode('latin-1')
+          if term: o += b'\x00'
           return o
 
         name_map = {}
@@ -221,7 +221,7 @@ class dns(packet_base):
               pre += post[0]
               if len(post) == 1:
                 if len(pre) == 0:
-                  s += '\x00'
+                  s += b'\x00'
                 else:
                   name_map[name] = len(s)
                   s += makeName(pre, True)
